@@ -6,6 +6,7 @@ import (
 	"fmt"
 	"math/rand"
 	"reflect"
+	"sort"
 	"strings"
 	"unsafe"
 
@@ -882,6 +883,10 @@ func decodeOne(t message.Type, x []byte, exp *parseRec, res *Result, origin stri
 		res.mismatch(Mismatch{What: fmt.Sprintf("%s: Decode returned n=%d for %d input bytes", cls, n, len(x)), Tag: "C04", Replay: rep})
 		return
 	}
+	if fl := frameLen(x); err == nil && fl >= 0 && n > fl {
+		res.mismatch(Mismatch{What: fmt.Sprintf("%s: Decode returned n=%d, the packet its header announces has %d bytes (what follows belongs to the next packet)", cls, n, fl), Tag: "C04", Replay: rep})
+		return
+	}
 	if err == nil {
 		for name, f := range fieldSlices(m) {
 			if !inside(f, in, n) {
@@ -938,6 +943,66 @@ func decodeOne(t message.Type, x []byte, exp *parseRec, res *Result, origin stri
 	}
 }
 
+// frameLen: the length of the packet the fixed header at the start of x announces (-1: no complete header of at most four length bytes)
+func frameLen(x []byte) int {
+	rl, mult := 0, 1
+	for i := 1; i <= 4; i++ {
+		if i >= len(x) {
+			return -1
+		}
+		rl += int(x[i]&0x7f) * mult
+		mult *= 128
+		if x[i] < 0x80 {
+			return 1 + i + rl
+		}
+	}
+	return -1
+}
+
+// verdictOf: does the decoder accept x, and how many bytes does it say the packet has
+func verdictOf(t message.Type, x []byte) (ok bool, n int, fields string) {
+	defer func() {
+		if recover() != nil {
+			ok, n = false, -1
+		}
+	}()
+	m, _ := t.New()
+	n, err := m.Decode(guarded(x))
+	if err != nil {
+		return false, 0, ""
+	}
+	var names []string
+	fs := fieldSlices(m)
+	for name := range fs {
+		names = append(names, name)
+	}
+	sort.Strings(names)
+	for _, name := range names {
+		fields += fmt.Sprintf("%s=%x;", name, short(string(fs[name]), 40))
+	}
+	return true, n, fields
+}
+
+// behindThePacket: a decoder reads the packet its header announces and nothing else: for an input that is exactly one
+// frame, verdict, byte count and fields do not depend on what follows it in the slice (the next packet, as in the
+// broker's ring)
+func behindThePacket(t message.Type, x []byte, res *Result, origin string) {
+	if frameLen(x) != len(x) || len(x) > 4096 {
+		return
+	}
+	ok0, n0, f0 := verdictOf(t, x)
+	for _, tail := range [][]byte{{0x00, 0x02, 'h', 'i', 0xc0, 0x00}, {0x30, 0x0c, 0x00, 0x01, 't', 'p', 'a', 'y', 'l', 'o', 'a', 'd', '0', '1'}} {
+		res.Steps++
+		ok1, n1, f1 := verdictOf(t, append(append([]byte(nil), x...), tail...))
+		if ok0 != ok1 || n0 != n1 || f0 != f1 {
+			res.mismatch(Mismatch{What: fmt.Sprintf("%s decoder, %s: the result depends on the bytes behind the packet: alone accepted=%v n=%d, followed by % x accepted=%v n=%d%s",
+				t.Name(), origin, ok0, n0, short(string(tail), 6), ok1, n1, map[bool]string{true: " (fields differ)", false: ""}[ok0 && ok1 && n0 == n1 && f0 != f1]),
+				Tag: "C04", Replay: map[string]interface{}{"decoder": t.Name(), "input_hex": fmt.Sprintf("%x", short(string(x), 64)), "input_len": len(x), "tail_hex": fmt.Sprintf("%x", tail), "origin": origin}})
+			return
+		}
+	}
+}
+
 // decodeparse: the reference parser's verdict for every short byte string over the structure alphabet
 func cmdDecodeParse(a Args) {
 	res := newResult()
@@ -988,16 +1053,38 @@ func cmdDecodeMut(a Args) {
 		res.Evaluations++
 		run := func(x []byte, origin string) {
 			decodeOne(own, x, nil, res, c.Case.Ty+" "+origin)
+			behindThePacket(own, x, res, c.Case.Ty+" "+origin)
 			if rng.Intn(8) == 0 {
 				decodeOne(allTypes[rng.Intn(len(allTypes))], x, nil, res, c.Case.Ty+" "+origin)
 			}
 		}
 		seen := map[int]bool{}
+		hdr := 1
+		for hdr < len(wire) && hdr < 5 && wire[hdr] >= 0x80 {
+			hdr++
+		}
+		hdr++ // type byte + length bytes
 		for _, b := range bounds {
 			for _, cut := range []int{b - 1, b, b + 1} {
 				if cut >= 0 && cut < len(wire) && !seen[cut] {
 					seen[cut] = true
 					run(wire[:cut], "truncated")
+					// the same bytes with a header that announces exactly them: a complete frame whose content ends early
+					if cut >= hdr && cut-hdr < 1<<21 {
+						y := []byte{wire[0]}
+						for rl := cut - hdr; ; {
+							d := byte(rl % 128)
+							rl /= 128
+							if rl > 0 {
+								d |= 0x80
+							}
+							y = append(y, d)
+							if rl == 0 {
+								break
+							}
+						}
+						run(append(y, wire[hdr:cut]...), "truncated, header adjusted")
+					}
 				}
 			}
 		}
